@@ -7,9 +7,9 @@ COQ_FILES = ["Common/Corr.v", "Model/XLexer.v", "Model/XLexerTables.v", "Model/X
              "Proofs/XLexerUtf8.v", "Proofs/XLexerScan.v", "Proofs/XLexerStep.v", "Proofs/XLexerLoop.v",
              "Proofs/XLexer.v", "Proofs/XLexerParser.v", "Proofs/XLexerBraces.v", "Props/C29.v"]
 PROPS = "Props/C29.v"
-THEOREMS = ["C29_tokens_tile", "C29_tokens_tile_refuted", "C29_tokens_tile_partial", "C29_loop_ends_partial",
-            "C29_tokens_tile_refuted_by_panic", "C29_xlex_total", "C29_prelude_reject_reports_error",
-            "C29_brackets_matched_or_reported"]
+THEOREMS = ["C29_tokens_tile", "C29_xlex_total", "C29_prelude_reject_reports_error", "C29_brackets_matched_or_reported"]
+# about the lexer as it was before the repairs ([as_is] variant of the model); kept in Props/C29.v, audited with the rest
+HISTORICAL = ["C29_tokens_tile_refuted", "C29_tokens_tile_refuted_by_panic", "C29_tokens_tile_partial", "C29_loop_ends_partial"]
 AXIOMS_OK = []
 TRUSTED = ["hand-written Gallina mirror of experimental/internal/lexer (loop.go, lexer.go, string.go; number.go for the token "
            "boundary only) and of token.Stream.Push / token.Fuse as far as offsets and fusion go",
@@ -145,3 +145,4 @@ def run(ctx):
     ctx.exhaustive = True
     ctx.extra["exhaustive_part"] = "all strings of length <= %d over the 14-symbol alphabet" % maxlen
     ctx.extra["model_variant"] = {"fix_flush": ff, "fix_esc": fe}
+    ctx.extra["historical_lemmas"] = HISTORICAL
